@@ -104,6 +104,10 @@ def build(F: Facts, g: Grammar, lm: LexModel) -> Templates:
             by_prod[p.index] = tpls
             for t in tpls:
                 if t.raises is None:
+                    # a path taken on an assumption about a symbol whose kinds are not known yet (first rounds) is
+                    # provisional: it must not feed the kinds it was waiting for (least fixpoint from below)
+                    if any(_mentions_unkinded_sym(c) for c, _ in t.assumptions):
+                        continue
                     new_kinds[p.lhs] |= _classify(F, t.result)
         # non-recursive non-terminals all of whose alternatives build a concrete list are inlined
         new_inl = set()
@@ -131,6 +135,14 @@ def build(F: Facts, g: Grammar, lm: LexModel) -> Templates:
     else:
         raise AnalysisError('action templates: kinds of the non-terminals did not stabilise')
     return Templates(g, by_prod, kinds, inlinable)
+
+
+def _mentions_unkinded_sym(t) -> bool:
+    if isinstance(t, tuple):
+        if t[:1] == ('sym',) and len(t) > 4 and t[4] == ():
+            return True
+        return any(_mentions_unkinded_sym(x) for x in t)
+    return False
 
 
 def _recursive_nts(g: Grammar) -> Set[str]:
